@@ -185,6 +185,36 @@ impl Form {
             Some(p) => p.clone(),
         }
     }
+    /// The tightest spelling: symbolic operators with nothing around them, one blank inside a quantifier
+    /// (`any of $a||$b`, `!$a&&($b||$c)`)
+    pub fn render_tight(&self) -> String {
+        match self {
+            Form::Tt => String::new(),
+            Form::V(v) => v.clone(),
+            Form::Not(f) => {
+                let inner = f.render_tight();
+                if f.prec() < 4 { format!("!({inner})") } else { format!("!{inner}") }
+            }
+            Form::And(a, b) => {
+                let l = a.render_tight();
+                let l = if a.prec() < 2 { format!("({l})") } else { l };
+                let r = b.render_tight();
+                let r = if b.prec() <= 2 { format!("({r})") } else { r };
+                format!("{l}&&{r}")
+            }
+            Form::Or(a, b) => {
+                let l = a.render_tight();
+                let r = b.render_tight();
+                let r = if b.prec() <= 1 { format!("({r})") } else { r };
+                format!("{l}||{r}")
+            }
+            Form::All(p) => format!("all of {}", Self::group(p)),
+            Form::Any(p) => format!("any of {}", Self::group(p)),
+            Form::NoneOf(p) => format!("none of {}", Self::group(p)),
+            Form::N(n, p) => format!("{n} of {}", Self::group(p)),
+            Form::NBig(d, p) => format!("{d} of {}", Self::group(p)),
+        }
+    }
     /// Render with minimal parentheses for the documented precedence (not > and > or, both binary
     /// operators left-associative); `rng` picks operator spellings, spacing and redundant parentheses.
     pub fn render(&self, rng: &mut Rng) -> String {
@@ -254,6 +284,8 @@ pub struct SRule {
     pub attack: Option<Vec<String>>,
     pub actions: Option<Vec<String>>,
     pub disable: Option<bool>,
+    /// write the condition in its tightest spelling
+    pub tight: bool,
 }
 
 impl SRule {
@@ -286,7 +318,7 @@ impl SRule {
             "ops": self.ops.iter().map(|(k, o)| json!([k, o.spec()])).collect::<Vec<_>>(),
         });
         if let Some(c) = &self.cond {
-            r["condition"] = json!(c.render(rng));
+            r["condition"] = json!(if self.tight { c.render_tight() } else { c.render(rng) });
             spec["cond"] = c.spec();
         }
         if let Some(s) = self.severity {
